@@ -1142,8 +1142,8 @@ LEVEL_NOTE = ('trusted: Lean kernel; hand-written models Yaql/Model/Limits.lean,
               'abstract first-order evaluator; the C08Eval theorems are about the instrumented C04 interpreter: its fragment and '
               'out-of-domain cases, shallow sizes, non-data objects only bounded (objMin..objMax: quotas below objMax are not '
               'exercised), mixed-key dicts / floats / sets "no prediction" under a quota, a 48-byte slack for the plain dict '
-              'toDict returns; where Eval orders two ordinary exceptions differently from the code (dict(items), the finaliser, '
-              'unpack() of a raising source) evalL keeps Eval\'s order. The two defects this check found (nested-iterators-unlimited, frozendict-unmeasured) are '
+              'toDict returns; where Eval orders two ordinary exceptions differently from the code (dict(items), the finaliser) '
+              'evalL keeps Eval\'s order. The two defects this check found (nested-iterators-unlimited, frozendict-unmeasured) are '
               'repaired in /repo (fb14b78, ccc0ee2); reverting either gives a VIOLATION with a concrete failing input.')
 TECHNIQUE = ('Lean 4 proof (invariant of the counting generator, structural induction over values, integer arithmetic) + '
              'generated registry/use-fact table proved by decide +kernel + dynamic sweep of the whole registry')
